@@ -118,7 +118,7 @@ func planAnchorRestore(p *Prog, in *inliner, plan *canonPlan, skipDecl map[*ast.
 		}
 		// still there?
 		present := false
-		var cands []*Fn
+		var cands, renames []*Fn
 		wn, wt := want.operands()
 		_ = wn
 		wsorted := sortedCopy(wt)
@@ -147,6 +147,12 @@ func planAnchorRestore(p *Prog, in *inliner, plan *canonPlan, skipDecl map[*ast.
 			}
 			_, ht := have.operands()
 			if !sameStrings(have.RTypes, want.RTypes) {
+				continue
+			}
+			if newName && want.Recv != "" && have.Recv == "" && sameStrings(have.PTypes, want.PTypes) {
+				// an anchored method that lost its (unused) receiver *and* its name: the name is given back here, the
+				// receiver by planMethodRestore in a second pass of this round
+				renames = append(renames, f)
 				continue
 			}
 			if !sameStrings(sortedCopy(ht), wsorted) {
@@ -184,6 +190,29 @@ func planAnchorRestore(p *Prog, in *inliner, plan *canonPlan, skipDecl map[*ast.
 			if ok {
 				cands = append(cands, f)
 			}
+		}
+		if !present && len(cands) == 0 && len(renames) == 1 {
+			c := renames[0]
+			if o := pk.Types.Scope().Lookup(want.Name); o == nil {
+				n := 0
+				for _, pkg2 := range p.Pkgs {
+					for _, file := range pkg2.Syntax {
+						ast.Inspect(file, func(m ast.Node) bool {
+							if id, ok := m.(*ast.Ident); ok && (pkg2.TypesInfo.Uses[id] == types.Object(c.Obj) || pkg2.TypesInfo.Defs[id] == types.Object(c.Obj)) {
+								fe := in.file(id.Pos())
+								fe.edits = append(fe.edits, textEdit{start: in.off(id.Pos()), end: in.off(id.End()), text: want.Name})
+								n++
+							}
+							return true
+						})
+					}
+				}
+				if n > 0 {
+					usedCand[c] = true
+					plan.expanded = append(plan.expanded, "anchor renamed: "+c.Decl.Name.Name+" -> "+want.Name+" (again)")
+				}
+			}
+			continue
 		}
 		if present || len(cands) != 1 {
 			continue
